@@ -101,6 +101,15 @@ func runE2EPipe(prop string, c *e2ePipeCase) (v verdict, sig string, err error) 
 		return v, "", e
 	}
 	cfg := e2eConfig{Workers: pc.Workers, UDPSize: pc.UDPSize, SinkAddr: sink.addr(), Extra: map[string]string{}}
+	sizeOf := func(p string) int {
+		if p == pc.Proto || pc.OtherUDPSize <= 0 {
+			return pc.UDPSize
+		}
+		return pc.OtherUDPSize
+	}
+	for p, key := range map[string]string{"ipfix": "ipfix-udp-size", "nf9": "netflow9-udp-size", "nf5": "netflow5-udp-size", "sflow": "sflow-udp-size"} {
+		cfg.Extra[key] = strconv.Itoa(sizeOf(p))
+	}
 	if len(pc.Filter) > 0 {
 		var parts []string
 		for _, f := range pc.Filter {
@@ -118,17 +127,34 @@ func runE2EPipe(prop string, c *e2ePipeCase) (v verdict, sig string, err error) 
 		}
 	}()
 	port := proc.port(pc.Proto)
-	var replica *flowCache
-	if pc.Proto == "ipfix" || pc.Proto == "nf9" {
-		replica = newFlowCache(pc.Proto)
-	}
+	replicas := map[string]*flowCache{"ipfix": newFlowCache("ipfix"), "nf9": newFlowCache("nf9")}
 	fs0, err0 := proc.flowStats()
 	if err0 != nil {
 		return v, "", fmt.Errorf("harness: stats: %v", err0)
 	}
-	base := *fs0.of(pc.Proto)
-	drops0 := udpDrops(port)
-	sentTotal := uint64(0)
+	protos := []string{"ipfix", "nf9", "nf5", "sflow"}
+	base := map[string]protoStats{}
+	drops0 := 0
+	for _, p := range protos {
+		base[p] = *fs0.of(p)
+		drops0 += udpDrops(proc.port(p))
+	}
+	drops := func() int {
+		n := 0
+		for _, p := range protos {
+			n += udpDrops(proc.port(p))
+		}
+		return n
+	}
+	sent := map[string]uint64{}
+	caughtUp := func(fs *flowStats) bool {
+		for _, p := range protos {
+			if fs.of(p).UDPCount-base[p].UDPCount < sent[p] {
+				return false
+			}
+		}
+		return true
+	}
 	want := map[string]int{}
 	var lo, hi uint64
 	classes := map[string]bool{}
@@ -139,25 +165,34 @@ func runE2EPipe(prop string, c *e2ePipeCase) (v verdict, sig string, err error) 
 				j = len(ph)
 			}
 			for _, dg := range ph[i:j] {
+				pname := dg.Proto
+				if pname == "" {
+					pname = pc.Proto
+				}
 				data := []byte(dg.Data)
 				ex := exps[dg.Exp]
 				if len(data) > 65000 {
 					data = data[:65000]
 				}
-				if e := ex.send(port, data); e != nil {
+				if e := ex.send(proc.port(pname), data); e != nil {
 					return v, "", fmt.Errorf("harness: send: %v", e)
 				}
-				sentTotal++
+				sent[pname]++
 				seen := data
-				if len(seen) > pc.UDPSize {
-					seen = seen[:pc.UDPSize]
+				if len(seen) > sizeOf(pname) {
+					seen = seen[:sizeOf(pname)]
 				}
-				o, perr := sequentialDecode(pc.Proto, replica, ex.addr, seen, pc.Filter)
+				o, perr := sequentialDecode(pname, replicas[pname], ex.addr, seen, pc.Filter)
 				if perr != nil {
 					return v, "seq-panic", fmt.Errorf("sequential decode: %v", perr)
 				}
 				if o.published {
-					want[o.payload]++
+					want[normPayloadAny(o.payload)]++
+				}
+				classes[dg.Class] = true
+				if pname != pc.Proto {
+					v.label(true, "e2e-cross-traffic")
+					continue
 				}
 				if pc.Proto == "sflow" {
 					if o.published {
@@ -174,30 +209,36 @@ func runE2EPipe(prop string, c *e2ePipeCase) (v verdict, sig string, err error) 
 						hi++
 					}
 				}
-				classes[dg.Class] = true
 			}
-			// the sender waits for the receive loop to catch up, so the socket buffer cannot overflow
-			_, ok := waitStats(proc, 5*time.Second, func(fs *flowStats) bool { return fs.of(pc.Proto).UDPCount-base.UDPCount >= sentTotal })
+			// the sender waits for the receive loops to catch up, so the socket buffers cannot overflow
+			_, ok := waitStats(proc, 5*time.Second, caughtUp)
 			if !ok {
 				if proc.exited() {
 					return v, "crash", fmt.Errorf("phase %d: the collector died: %s", pi, proc.stderrTail())
 				}
-				if udpDrops(port) > drops0 {
+				if drops() > drops0 {
 					v.label(true, "inconclusive-kernel-drops")
 					return v, "", nil
 				}
 				fs, _ := proc.flowStats()
 				got := uint64(0)
 				if fs != nil {
-					got = fs.of(pc.Proto).UDPCount - base.UDPCount
+					got = fs.of(pc.Proto).UDPCount - base[pc.Proto].UDPCount
 				}
-				return v, "udpcount-low", fmt.Errorf("phase %d: %d datagrams sent (kernel dropped none), UDPCount moved by %d", pi, sentTotal, got)
+				return v, "udpcount-low", fmt.Errorf("phase %d: %d datagrams sent to the %s port (kernel dropped none), UDPCount moved by %d", pi, sent[pc.Proto], pc.Proto, got)
 			}
 		}
 		// phase boundary: queues empty and everything expected so far has reached the sink
-		waitStats(proc, 5*time.Second, func(fs *flowStats) bool { s := fs.of(pc.Proto); return s.UDPQueue == 0 && s.MessageQueue == 0 })
+		waitStats(proc, 5*time.Second, func(fs *flowStats) bool {
+			for _, p := range protos {
+				if s := fs.of(p); s.UDPQueue != 0 || s.MessageQueue != 0 {
+					return false
+				}
+			}
+			return true
+		})
 		for p := range want {
-			if !sink.waitFor(normBack(pc.Proto, p, sink), 5*time.Second) {
+			if !sink.waitFor(normBack(p, sink), 5*time.Second) {
 				break
 			}
 		}
@@ -206,11 +247,11 @@ func runE2EPipe(prop string, c *e2ePipeCase) (v verdict, sig string, err error) 
 	// fence: a few more datagrams, then stop the process; late duplicates would show up now
 	for i := 0; i < 3; i++ {
 		exps[0].send(port, []byte{0, 99, 0, 0})
-		sentTotal++
+		sent[pc.Proto]++
 	}
 	fsEnd, ok := waitStats(proc, 5*time.Second, func(fs *flowStats) bool {
 		s := fs.of(pc.Proto)
-		return s.UDPCount-base.UDPCount >= sentTotal && s.UDPQueue == 0 && s.MessageQueue == 0
+		return caughtUp(fs) && s.UDPQueue == 0 && s.MessageQueue == 0
 	})
 	if !ok && proc.exited() {
 		return v, "crash", fmt.Errorf("the collector died: %s", proc.stderrTail())
@@ -227,20 +268,24 @@ func runE2EPipe(prop string, c *e2ePipeCase) (v verdict, sig string, err error) 
 	if bad := stderrProblem(proc.stderrText()); bad != "" {
 		return v, "crash", fmt.Errorf("collector crashed: %s", bad)
 	}
-	if udpDrops(port) > drops0 {
+	if drops() > drops0 {
 		v.label(true, "inconclusive-kernel-drops")
 		return v, "", nil
 	}
-	end := fsEnd.of(pc.Proto)
-	if d := end.UDPCount - base.UDPCount; d != sentTotal {
-		return v, "udpcount", fmt.Errorf("%d datagrams sent, UDPCount moved by %d", sentTotal, d)
+	sentTotal := uint64(0)
+	for _, p := range protos {
+		sentTotal += sent[p]
+		if d := fsEnd.of(p).UDPCount - base[p].UDPCount; d != sent[p] {
+			return v, "udpcount", fmt.Errorf("%d datagrams sent to the %s port, its UDPCount moved by %d", sent[p], p, d)
+		}
 	}
-	if d := end.DecodedCount - base.DecodedCount; d < lo || d > hi {
-		return v, "decoded-count", fmt.Errorf("DecodedCount moved by %d for %d datagrams; %d decode without error, %d return a message", d, sentTotal, lo, hi)
+	end := fsEnd.of(pc.Proto)
+	if d := end.DecodedCount - base[pc.Proto].DecodedCount; d < lo || d > hi {
+		return v, "decoded-count", fmt.Errorf("DecodedCount moved by %d for %d datagrams; %d decode without error, %d return a message", d, sent[pc.Proto], lo, hi)
 	}
 	got := map[string]int{}
 	for l, n := range sink.snapshot() {
-		got[normPayload(pc.Proto, []byte(l))] += n
+		got[normPayloadAny(l)] += n
 	}
 	for p, n := range got {
 		if want[p] == 0 {
@@ -262,16 +307,24 @@ func runE2EPipe(prop string, c *e2ePipeCase) (v verdict, sig string, err error) 
 	return v, "", nil
 }
 
-// normBack: the sink stores raw lines; for sFlow the collection time differs, so waiting is done on the count instead.
-func normBack(proto, payload string, s *lineSink) string {
-	if proto != "sflow" {
+// normPayloadAny blanks the collection timestamp of sFlow payloads (the sink receives all four protocols' lines).
+func normPayloadAny(l string) string {
+	if strings.Contains(l, `"ColTime":`) {
+		return normPayload("sflow", []byte(l))
+	}
+	return l
+}
+
+// normBack: the sink stores raw lines; for sFlow the collection time differs, so a received line that
+// normalises to the payload is looked up.
+func normBack(payload string, s *lineSink) string {
+	if !strings.Contains(payload, `"ColTime":`) {
 		return payload
 	}
-	// find a received line that normalises to the payload
 	s.mu.Lock()
 	defer s.mu.Unlock()
 	for l := range s.seen {
-		if normPayload("sflow", []byte(l)) == payload {
+		if strings.Contains(l, `"ColTime":`) && normPayload("sflow", []byte(l)) == payload {
 			return l
 		}
 	}
